@@ -69,3 +69,44 @@ TABLE_DEC += [
     {"file": ENC, "fn": "bgv_decrypt", "impl": "Decryptor", "lean": "dec_bgv_decrypt", "skeleton": SK_BGV, "whole_copy": True,
      "model": "bgvDecrypt (correction-factor fix-up + trimPlain)"},
 ]
+
+# `dot_product_ct_sk_array`: the index / stride arithmetic and the ORDER of the kernel calls as a plan (the kernels themselves - `dyadic_product_p`,
+# `add_inplace_p`, `ntt_p`, `intt_p`, tied in phases 4b / 4e - are opaque steps).  Codes:
+#   100 m            compute_secret_key_array(m)
+#   size = 2:  10 = dest := c1 * sk[0..]   11 = dest += c0   12 = dest := c1   13 = ntt_p(dest)   14 = dest *= sk[0..]   15 = intt_p(dest)
+#   size > 2:  21 m = ntt_ps(copy, m)   20 lo hi klo khi = copy[lo..hi] *= sk[klo..khi]   22 = dest.fill(0)   23 lo hi = dest += copy[lo..hi]
+#              15 = intt_p(dest)   25 = dest += c0
+# `ct` = `encrypted.data()` (only its length is observable here: the tail copy and its `assert_eq!`).
+RAW0 = "std::slice::from_raw_parts(encrypted.poly(0).as_ptr(), $n * $k)"
+RAW1 = "std::slice::from_raw_parts(encrypted.poly(1).as_ptr(), $n * $k)"
+SKA = "self.secret_key_array.read().unwrap().as_ref()"
+CM = CD + ".parms().coeff_modulus()"
+NT = CD + ".small_ntt_tables()"
+SK_DOT = {
+    "unsafe_inline": True,
+    "sig": "fn dot_product_ct_sk_array(ct: &[u64], size: usize, is_ntt: bool, n: usize, q_size: usize, key_q_size: usize, plan: &mut Vec<u64>)",
+    "handles": [CD, CD + ".parms()", CM, NT, "self.secret_key_array.read().unwrap()", SKA, RAW0, RAW1],
+    "exprs": {CM + ".len()": "q_size", CD + ".parms().poly_modulus_degree()": "n", "encrypted.size()": "size",
+              "self.context.key_context_data().unwrap().parms().coeff_modulus().len()": "key_q_size",
+              "encrypted.is_ntt_form()": "is_ntt", "encrypted.data()": "ct"},
+    "effects": {"self.compute_secret_key_array($s - 1)": "plan.push(100); plan.push(($s - 1) as u64);",
+                "polymod::dyadic_product_p(%s, %s, $c, %s, destination)" % (RAW1.replace("$n", "$n1").replace("$k", "$k1"), SKA, CM): "plan.push(10);",
+                "polymod::add_inplace_p(destination, %s, $c, %s)" % (RAW0.replace("$n", "$n0").replace("$k", "$k0"), CM): "plan.push(11);",
+                "destination.copy_from_slice(%s)" % RAW1.replace("$n", "$n1").replace("$k", "$k1"): "plan.push(12);",
+                "polymod::ntt_p(destination, $c, %s)" % NT: "plan.push(13);",
+                "polymod::dyadic_product_inplace_p(destination, %s, $c, %s)" % (SKA, CM): "plan.push(14);",
+                "polymod::intt_p(destination, $c, %s)" % NT: "plan.push(15);",
+                "polymod::ntt_ps(&$e, $s - 1, $c, %s)" % NT: "plan.push(21); plan.push(($s - 1) as u64);",
+                "polymod::dyadic_product_inplace_p(&$e[$i * $p..($i + 1) * $p], &%s[$i * $kp..$i * $kp + $p], $c, %s)" % (SKA, CM):
+                    "plan.push(20); plan.push(($i * $p) as u64); plan.push((($i + 1) * $p) as u64); plan.push(($i * $kp) as u64); plan.push(($i * $kp + $p) as u64);",
+                "destination.fill(0)": "plan.push(22);",
+                "polymod::add_inplace_p(destination, &$e[$i * $p..($i + 1) * $p], $c, %s)" % CM:
+                    "plan.push(23); plan.push(($i * $p) as u64); plan.push((($i + 1) * $p) as u64);",
+                "polymod::add_inplace_p(destination, encrypted.poly(0), $c, %s)" % CM: "plan.push(25);"},
+}
+TABLE_DEC += [
+    {"file": ENC, "fn": "dot_product_ct_sk_array", "impl": "Decryptor", "lean": "dec_dot_product_plan", "skeleton": SK_DOT, "nested_loops": True, "push_carried": True,
+     # the scheduling hook of the verification feature (`/repo/src/verif.rs`, no data effect) is erased, pinned to the exact statement
+     "pre_text": __import__("rs2lean_rns4k").float_erase([('#[cfg(feature = "verif")] crate::verif::sched::yield_at(4);', 1, "")]),
+     "model": "dotProductCtSk (index / stride arithmetic, order of the kernel calls)"},
+]
